@@ -53,7 +53,7 @@ func propC01() *fw.Prop {
 		Assumptions: []string{trustedBase, "overdraft grants are read off the generator's own tree with the model's expression evaluator"},
 		Require:     []string{"runs_succeeded", "nontrivial_debiting_runs", "tight_cases", "stratum_repeat", "stratum_negbal", "stratum_save", "stratum_chains"},
 		Run: func(c *fw.Ctx) {
-			ledgerWorkload(c, ledgerStrata(), c.N(40000, 3000000), func(e *exec, s string) { monC01(c, e, s) })
+			ledgerWorkload(c, ledgerStrata(), c.N(120000, 3000000), func(e *exec, s string) { monC01(c, e, s) })
 		},
 	}
 }
@@ -108,16 +108,87 @@ func hostileNames(c *fw.Ctx, startIdx int, n int, mon func(e *exec, stratum stri
 	}
 }
 
+// oversum: allotments whose literal / variable portions add up to more than one next to a
+// `remaining` clause (in any position), in sources and destinations. The properties do not say
+// what such a script means; accepted outcomes are a typed error or postings that are all real
+// transfers.
+func oversum(c *fw.Ctx, startIdx int, n int, mon func(e *exec, stratum string)) {
+	for i := 0; i < n; i++ {
+		id := "oversum/" + itoa(i)
+		if !c.Want(startIdx+i, id) {
+			continue
+		}
+		r := c.Rng(id)
+		k := r.Range(2, 4)
+		rem := r.Intn(k)
+		den := int64(r.Range(2, 9))
+		heads := make([]gen.Allot, k)
+		vars := map[string]string{}
+		var decls []*gen.VarDecl
+		for j := 0; j < k; j++ {
+			if j == rem {
+				heads[j] = &gen.AllotRemaining{}
+				continue
+			}
+			num := int64(r.Range(1, int(den)))
+			if j == (rem+1)%k {
+				num = den - int64(r.Intn(2)) // close to or exactly one: the total exceeds one with the others
+			}
+			txt := itoa(int(num)) + "/" + itoa(int(den))
+			if r.Chance(1, 3) {
+				name := "p" + itoa(j)
+				decls = append(decls, &gen.VarDecl{Type: "portion", Name: name})
+				vars[name] = txt
+				heads[j] = &gen.AllotVar{V: gen.V(name)}
+			} else {
+				heads[j] = &gen.AllotLit{Lit: &gen.Ratio{Text: txt}}
+			}
+		}
+		sc := &gen.Script{Vars: decls}
+		amt := gen.M("USD", gen.SmallOrBig(r, 5).String())
+		if r.Bool() {
+			d := &gen.DstAllot{}
+			for j, h := range heads {
+				d.Items = append(d.Items, &gen.DstAllotItem{A: h, To: gen.To(gen.DA("d" + itoa(j)))})
+			}
+			sc.Stmts = []gen.Stmt{&gen.Send{Sent: &gen.SentValue{E: amt}, Src: gen.SA("world"), Dst: d}}
+		} else {
+			s := &gen.SrcAllot{}
+			for j, h := range heads {
+				var from gen.Source = &gen.SrcOverdraft{Addr: gen.A("d" + itoa(j))}
+				if r.Chance(1, 3) {
+					from = gen.SA("world")
+				}
+				s.Items = append(s.Items, &gen.SrcAllotItem{A: h, From: from})
+			}
+			sc.Stmts = []gen.Stmt{&gen.Send{Sent: &gen.SentValue{E: amt}, Src: s, Dst: gen.DA("z")}}
+		}
+		cs := mkCase(sc, vars, nil)
+		e, ok := run(c, cs)
+		if !ok {
+			continue
+		}
+		c.Count("stratum_oversum", 1)
+		if e.out.OK() {
+			c.Count("oversum_runs_succeeded", 1)
+		} else {
+			c.Count("oversum_runs_rejected", 1)
+		}
+		mon(e, "oversum")
+	}
+}
+
 func propC02() *fw.Prop {
 	return &fw.Prop{
 		ID: "C02", Level: "exploration",
 		Rule:        "same workload as C01 plus negative/zero caps, kept-heavy destinations and account names arriving through variables/metadata that are empty, the kept marker or outside the account grammar; every posting of every successful run is inspected (amount > 0, names non-empty / not the kept marker / named by the script, asset = asset of the producing statement, attributed by executing every prefix of the script). Non-trivial = successful run with ≥ 1 posting; distinct = (stratum, script shape skeleton).",
 		Assumptions: []string{trustedBase},
-		Require:     []string{"postings_inspected", "postings_attributed", "stratum_kept", "stratum_caps", "stratum_hostile_names"},
+		Require:     []string{"postings_inspected", "postings_attributed", "stratum_kept", "stratum_caps", "stratum_hostile_names", "stratum_oversum"},
 		Run: func(c *fw.Ctx) {
-			n := c.N(40000, 3000000)
+			n := c.N(120000, 3000000)
 			ledgerWorkload(c, ledgerStrata(), n, func(e *exec, s string) { monC02(c, e, s, false) })
-			hostileNames(c, n+1000, c.N(3000, 100000), func(e *exec, s string) { monC02(c, e, s, true) })
+			hostileNames(c, n+1000, c.N(8000, 100000), func(e *exec, s string) { monC02(c, e, s, true) })
+			oversum(c, n+2_000_000, c.N(4000, 100000), func(e *exec, s string) { monC02(c, e, s, false) })
 		},
 	}
 }
@@ -128,7 +199,7 @@ func modelProp(id string, proj projection, rule string, require []string, extra 
 		Assumptions: []string{trustedBase, "choices the properties leave open are resolved as documented in DESIGN §4.3; cases the properties do not determine are skipped and counted"},
 		Require:     append([]string{"agreed_successes", "agreed_failures", "statements_compared"}, require...),
 		Run: func(c *fw.Ctx) {
-			ledgerWorkload(c, ledgerStrata(), c.N(40000, 3000000), func(e *exec, s string) {
+			ledgerWorkload(c, ledgerStrata(), c.N(120000, 3000000), func(e *exec, s string) {
 				if compareModel(c, e, proj) && extra != nil {
 					extra(c, e, s)
 				}
